@@ -7,18 +7,18 @@ import (
 
 // seqProfile steers the single-client history generator for one property.
 type seqProfile struct {
-	minSteps, maxSteps int
+	minSteps, maxSteps                                                                                   int
 	wTxn, wCreateCol, wCreateIndex, wDropIndex, wCreateSort, wDropSort, wCreateTrig, wDropTrig, wRestart int
 	// op weights inside a transaction
 	wInsert, wAt, wRange, wDelete, wDeleteAll, wCount, wAgg, wAscend, wKey int
-	pAbort, pFailInsert, pMerge float64
-	pKeyCol                      float64 // schema has a key column
-	maxCols                      int
-	indexes, sorts, triggers     bool
-	multiBlock                   float64 // probability of a prefilled multi-block layout
-	smallStrings                 bool    // small alphabet for strings (forces equal keys)
-	filters                      bool
-	forceKinds                   []Kind
+	pAbort, pFailInsert, pMerge                                            float64
+	pKeyCol                                                                float64 // schema has a key column
+	maxCols                                                                int
+	indexes, sorts, triggers                                               bool
+	multiBlock                                                             float64 // probability of a prefilled multi-block layout
+	smallStrings                                                           bool    // small alphabet for strings (forces equal keys)
+	filters                                                                bool
+	forceKinds                                                             []Kind
 }
 
 var capacities = []int{1, 64, 1000, 1024, 16384, 20000, 70000}
@@ -27,19 +27,21 @@ var strategicOffsets = []uint32{0, 1, 2, 63, 64, 65, 127, 128, 130, 300, 4095, 4
 
 // avoidance switches for triggers of known findings / out-of-contract inputs
 type avoid struct {
-	putThenDelete   bool // put and delete of one row in one transaction (stale value left behind)
-	failInCommit    bool // failing insert inside a transaction that commits
-	mergeAfterReuse bool // merge into a column the (reused) row holds nothing in
-	lenMergeThenPut bool // length-changing merge followed by a put on the same row+column in one transaction
-	dupKeyInTxn     bool // two inserts of one key in one transaction
-	enumBeyond0     bool
-	lateColSparse   bool
-	aggStale        bool
-	unionAfterClear bool
-	doubleDelete    bool
-	rollbackInsert  bool
-	sortDupKeys     bool
-	rekey           bool
+	putThenDelete    bool // put and delete of one row in one transaction (stale value left behind)
+	failInCommit     bool // failing insert inside a transaction that commits
+	mergeAfterReuse  bool // merge into a column the (reused) row holds nothing in
+	lenMergeThenPut  bool // length-changing merge followed by a put on the same row+column in one transaction
+	dupKeyInTxn      bool // two inserts of one key in one transaction
+	enumBeyond0      bool
+	lateColSparse    bool
+	aggStale         bool
+	unionAfterClear  bool
+	doubleDelete     bool
+	phantomReserved  bool
+	snapshotReserved bool
+	rollbackInsert   bool
+	sortDupKeys      bool
+	rekey            bool
 }
 
 func (a avoid) list() (out []string) {
@@ -57,6 +59,8 @@ func (a avoid) list() (out []string) {
 	add(a.aggStale, "agg-missing-value")
 	add(a.unionAfterClear, "union-after-clear")
 	add(a.doubleDelete, "double-delete")
+	add(a.phantomReserved, "phantom-reserved")
+	add(a.snapshotReserved, "snapshot-reserved")
 	add(a.rollbackInsert, "rollback-insert")
 	add(a.sortDupKeys, "sort-dup-keys")
 	add(a.rekey, "rekey")
